@@ -33,21 +33,34 @@ for k in ks:
                                "patch_applies_to_worktree": a.returncode == 0,
                                "demo_patched_tail": (r1.stdout + r1.stderr)[-400:]}
     results = {}
-    ap = sh(f"git -C /repo apply --check {dst}/patch.diff")
-    if ap.returncode != 0:
-        ap3 = sh(f"git -C /repo apply --3way {dst}/patch.diff")
-        applied = ap3.returncode == 0
-        if applied:
-            sh("git -C /repo reset -q")      # --3way stages; keep the working tree change only
+    if os.environ.get("SCRATCH"):
+        # while other jobs use /repo: a scratch copy of /repo's working tree carries the patch (LIAN_REPO selects it)
+        target = f"/tmp/seeded_scratch_{prop}_{k}"
+        sh(f"/verif/tools/scratch_repo.sh {target}")
+        applied = sh(f"cd {target} && patch -p1 --no-backup-if-mismatch < {dst}/patch.diff").returncode == 0
+        envp = f"LIAN_REPO={target} "
+        meta["run_against"] = "scratch copy of /repo HEAD with the patch applied (LIAN_REPO), because other jobs were using /repo"
     else:
-        applied = sh(f"git -C /repo apply {dst}/patch.diff").returncode == 0
+        target = "/repo"
+        envp = ""
+        ap = sh(f"git -C /repo apply --check {dst}/patch.diff")
+        if ap.returncode != 0:
+            ap3 = sh(f"git -C /repo apply --3way {dst}/patch.diff")
+            applied = ap3.returncode == 0
+            if applied:
+                sh("git -C /repo reset -q")      # --3way stages; keep the working tree change only
+        else:
+            applied = sh(f"git -C /repo apply {dst}/patch.diff").returncode == 0
     if applied:
         for chk in [prop] + extra_checks:
-            r = sh(f"cd /verif && ./check {chk} --tier quick", timeout=3000)
+            r = sh(f"cd /verif && {envp}./check {chk} --tier quick", timeout=3000)
             sigs = sorted({l.split(":", 1)[1].strip().split(": ")[0][:120] for l in r.stdout.splitlines() if l.startswith("  violated")})
             results[chk] = {"exit": r.returncode, "signatures": sigs[:8]}
             shutil.rmtree(f"/verif/replay/{chk}", ignore_errors=True)
-    sh("git -C /repo checkout -- . && git -C /repo status --short | head -3")
+    if target == "/repo":
+        sh("git -C /repo checkout -- . && git -C /repo status --short | head -3")
+    else:
+        shutil.rmtree(target, ignore_errors=True)
     meta["applies_to_current_repo"] = applied
     meta["checks_run_against_it"] = results
     meta["caught_by"] = [c for c, v in results.items() if v["exit"] == 1]
